@@ -597,6 +597,9 @@ impl Property for C11 {
             // a second `v-slots`
             misuse_case("<C1 v-slots={t(1)} v-slots={t(2)}>txt</C1>", Some("t(1)"), false),
             misuse_case("<C1 v-slots={t(1)} v-slots>txt</C1>", Some("t(1)"), false),
+            // entries of `v-models` that are not array literals
+            misuse_case("<C1 v-models={[[m, \"a\"], t(1)]} />", Some("t(1)"), false),
+            misuse_case("<C1 v-models={[...t(1), [m, \"a\"]]} />", Some("t(1)"), false),
         ]
     }
     fn required_labels(&self) -> Vec<&'static str> {
